@@ -187,7 +187,7 @@ RULES = [
     ("C05.R1", r1_r3_validation, 7, "for-all validation loop; reject iff score > L, score < 0, sum > k (budget set); TypeError; ordering"),
     ("C05.R4", r4_totals, 3, "totals = sum of score * weight over all ballots, exact, over all candidates"),
     ("C05.R5", r5_subclass_table, 10, "subclass parameter table (Rating, Limited, Cumulative, Approval, BlocPlurality); parameters unmodified"),
-    ("C05.R6", r6_optional_vs_zero, 4, "Optional numeric limits are tested with `is None`, not truthiness"),
+    ("C05.R6", r6_optional_vs_zero, 3, "Optional numeric limits are tested with `is None`, not truthiness"),
     ("C05.R7", r7_election, 2, "winners chosen by the shared top-m selector over the recorded order"),
 ]
 
